@@ -13,7 +13,7 @@ import re
 
 from sa.interp import Interp, Scenario, Sym, Const, Bytes, render, merge_consts
 from sa.loader import AnalysisError, dotted
-from sa.condtab import split_filter, conj, table, atoms, same
+from sa.condtab import split_filter, conj, table, atoms, same, skeleton
 
 noinline = lambda f: False  # noqa: E731
 
@@ -157,117 +157,249 @@ def exportable(rep, prog):
               'exportable certification is boolean subpacket type 4 (RFC 4880 5.2.3.11)', where=E.where)
 
 
+class LoopRec(object):
+    """One summarised loop as the interpreter saw it: the paths of a single iteration before they are merged."""
+    def __init__(self, frame, node, colltext, vartext, before, body):
+        self.node, self.depth = node, frame.depth
+        self.coll, self.conds = split_filter(colltext)
+        self.var = vartext
+        self.before = before
+        self.paths = []
+        nf, ne = len(before.facts), len(before.events)
+        for st, status in body:
+            self.paths.append((status, st.facts[nf:], st.events[ne:], st))
+
+
+def observe(prog, fn, **kw):
+    """Interpret fn; returns (final states, [LoopRec of every summarised loop of fn itself])."""
+    recs = []
+    sc = Scenario(inline=noinline, **kw)
+    sc.loop_observer = lambda frame, node, coll, var, before, body: recs.append(LoopRec(frame, node, coll, var, before, body)) if frame.depth == 0 else None
+    outs = Interp(prog, sc).run(fn)
+    return outs, recs
+
+
+def path_cond(facts):
+    """Skeleton of the conjunction of a path's decisions."""
+    out = []
+    for f in facts:
+        if len(f) < 3 or f[2] is None:
+            continue            # exception edges / loop markers are not conditions of the element
+        sk = skeleton(f[0])
+        out.append(sk if f[1] else ('not', sk))
+    return ('and', out)
+
+
+def any_of(conds):
+    return ('or', list(conds))
+
+
+def atom_value(facts, atom):
+    """Value of an atom on a path whose decisions fix it (None when the path does not depend on it / not uniquely)."""
+    sk = path_cond(facts)
+    if atom not in atoms(sk):
+        return None
+    tab, names = table(sk)
+    vals = {dict(zip(names, v))[atom] for v, keep in tab.items() if keep}
+    return vals.pop() if len(vals) == 1 else None
+
+
+def _effects(events):
+    return [e for e in events if e[0] in ('store', 'ior', 'del', 'yield', 'raise', 'return')]
+
+
+def _attach_events(events):
+    """(target, value) of every `target |= value` / operator.ior(target, value) on a path."""
+    out = []
+    for e in events:
+        if e[0] == 'ior':
+            out.append((e[1], e[2]))
+        elif e[0] == 'call' and e[1] == 'operator.ior' and len(e[2]) == 2:
+            out.append((e[2][0], e[2][1]))
+    return out
+
+
+def _root(text, stop=None):
+    """Object a chain of `|` attachments started from: '((X | a) | b)' -> 'X' (not unfolded beyond `stop`)."""
+    while text != stop and text.startswith('(') and text.endswith(')'):
+        depth = 0
+        cut = None
+        for i, ch in enumerate(text):
+            if ch in '([{':
+                depth += 1
+            elif ch in ')]}':
+                depth -= 1
+            elif depth == 1 and text.startswith(' | ', i):
+                cut = i
+        if cut is None:
+            break
+        text = text[1:cut]
+    return text
+
+
+HEADS = {'PubKeyV4': 'key', 'PrivSubKeyV4': 'key', 'UserID': 'uid', 'UserAttribute': 'uid'}
+
+
 def grouping(rep, prog):
     f = prog.method('pgpy.pgp', 'PGPKey', 'parse')
     rep.saw(fn=f)
     where = f.where
-    gb = [n for n in ast.walk(f.node) if isinstance(n, ast.Call) and dotted(n.func) in ('itertools.groupby', 'groupby')]
-    if len(gb) != 1 or not gb[0].args:
+    outs, recs = observe(prog, f)
+    gb = []
+    for s in outs:
+        for c in s.calls:
+            if c[0] in ('itertools.groupby', 'groupby') and c[1] and (c[0], c[1], c[2]) not in [(g[0], g[1], g[2]) for g in gb]:
+                gb.append(c)
+    if len(gb) != 1:
         raise AnalysisError('PGPKey.parse: expected exactly one itertools.groupby over the packet stream')
-    stream = gb[0].args[0]
-    # ---- Trust packets removed from the stream BEFORE grouping
-    def trust_filtered(expr, depth=0):
-        if depth > 4:
-            return False
-        if isinstance(expr, ast.Name):
-            for n in ast.walk(f.node):
-                if isinstance(n, ast.Assign) and any(isinstance(t, ast.Name) and t.id == expr.id for t in n.targets):
-                    if trust_filtered(n.value, depth + 1):
-                        return True
-            return False
-        if isinstance(expr, ast.Call) and dotted(expr.func) == 'filter' and len(expr.args) == 2 and isinstance(expr.args[0], ast.Lambda):
-            b = expr.args[0].body
-            return isinstance(b, ast.Compare) and len(b.ops) == 1 and isinstance(b.ops[0], ast.NotEq) and \
-                ast.unparse(b.left).endswith('.header.tag') and ast.unparse(b.comparators[0]) == 'PacketTag.Trust'
-        if isinstance(expr, (ast.GeneratorExp, ast.ListComp)):
-            return any(ast.unparse(i).replace(' ', '').endswith('.header.tag!=PacketTag.Trust') for g in expr.generators for i in g.ifs)
-        if isinstance(expr, ast.Call) and dotted(expr.func) == 'iter' and expr.args:
-            return trust_filtered(expr.args[0], depth + 1)
-        return False
-    rep.check(trust_filtered(stream), 'C14.3', 'PGPKey.parse', 'packet stream %s' % ast.unparse(stream)[:80],
+    stream = gb[0][1][0]
+    keytext = gb[0][2].get('key', gb[0][1][1] if len(gb[0][1]) > 1 else None)
+    # ---- Trust packets removed from the stream BEFORE grouping (the value that reaches groupby is a filtered stream)
+    m = re.match(r'^EACH\((\$[\d.]+) in (.*);\1\)$', stream)
+    okf = False
+    if m is not None:
+        v, (base, conds) = m.group(1), split_filter(m.group(2))
+        trust = prog.cls('pgpy.constants', 'PacketTag').enum_members().get('Trust')
+        for t in ('PacketTag.Trust', repr(trust)):
+            for a in ('%s.header.tag == %s' % (v, t), '%s == %s.header.tag' % (t, v), '%s.header.typeid == %s' % (v, t)):
+                okf = okf or (bool(conds) and same(conj(conds), ('not', ('atom', a))))
+    rep.check(okf, 'C14.3', 'PGPKey.parse', 'packet stream %s' % stream[:100],
               'Trust packets (keyring-local) must be removed from the packet stream before grouping: a Trust packet that opens a group swallows the '
               'signatures that follow it', where=where, expected='groupby(filter(lambda p: p.header.tag != PacketTag.Trust, ...), ...)')
     # ---- group key changes exactly on non-signature packets
-    key = next((k.value for k in gb[0].keywords if k.arg == 'key'), gb[0].args[1] if len(gb[0].args) > 1 else None)
-    grouper_cls = [n for n in ast.walk(f.node) if isinstance(n, ast.ClassDef)]
-    ok = False
-    for c in grouper_cls:
-        call = [m for m in c.body if isinstance(m, ast.FunctionDef) and m.name == '__call__']
-        if not call:
-            continue
-        pv = call[0].args.args[1].arg if len(call[0].args.args) > 1 else 'pkt'
-        ifs = [n for n in call[0].body if isinstance(n, ast.If)]
-        rets = [n for n in call[0].body if isinstance(n, ast.Return)]
-        if len(ifs) == 1 and len(rets) == 1 and not ifs[0].orelse and \
-                ast.unparse(ifs[0].test).replace(' ', '') == '%s.header.tag!=PacketTag.Signature' % pv:
-            st = [x for x in ifs[0].body if isinstance(x, ast.Assign)]
-            ok = len(st) == 1 and ast.unparse(st[0].targets[0]) == ast.unparse(rets[0].value) and 'id(%s)' % pv in ast.unparse(st[0].value)
-    rep.check(ok, 'C14.3', 'PGPKey.parse.PktGrouper', 'group key', 'a new group starts at every packet that is not a signature, and only there '
+    grouper(rep, prog, f, keytext)
+    # ---- the loop over the groups: which groups are skipped
+    gl = [r for r in recs if re.match(r'^(itertools\.)?groupby\(', r.coll)]
+    if len({id(r.node) for r in gl}) != 1:
+        raise AnalysisError('PGPKey.parse: expected exactly one loop over the groups (found %d)' % len({id(r.node) for r in gl}))
+    mv = re.match(r'^\((\$[\d.]+_0), (\$[\d.]+_1)\)$', gl[0].var or '')
+    if mv is None:
+        raise AnalysisError('PGPKey.parse: the loop over the groups does not bind (label, group): %s' % gl[0].var)
+    K, G = mv.group(1), mv.group(2)
+
+    def takes_head(events):
+        return any(e[0] == 'call' and e[1] == 'next' and e[2][:1] == [G] for e in events)
+    opaque = ('atom', "%s.endswith('Opaque')" % K)
+    for r in gl:
+        skipping = [p for p in r.paths if not takes_head(p[2])]
+        bad = [p for p in skipping if p[0] not in ('normal', 'continue') or _effects(p[2])]
+        skipped = ('or', [('not', conj(r.conds)), any_of(path_cond(p[1]) for p in skipping)])
+        desc = '%s%s' % (r.conds, [[x[0] for x in p[1]] for p in skipping] or '')
+        rep.check(not bad and same(skipped, opaque) and len(skipping) < len(r.paths), 'C14.3', 'PGPKey.parse', 'skipped groups %s' % desc,
+                  'only groups headed by an unknown (opaque) packet are skipped', where=where, expected="if not <key>.endswith('Opaque')", found=desc)
+    # ---- per kind of head packet: what the group's head becomes, where the group's signatures go, how the result is filed
+    keys = {render(s.ret) for s in outs if s.raised is None and s.ret is not None}
+    if len(keys) != 1:
+        raise AnalysisError('PGPKey.parse: result is not one collection (%s)' % sorted(keys))
+    KEYS = keys.pop()
+    recent = '%s[next(reversed(%s))]' % (KEYS, KEYS)
+    mro = {h: {c.name for c in prog.cls('pgpy.packet.packets', h).mro()} for h in HEADS}
+    own = {'PGPKey': {c.name for c in prog.cls('pgpy.pgp', 'PGPKey').mro()}, 'PGPUID': {c.name for c in prog.cls('pgpy.pgp', 'PGPUID').mro()}}
+    seen = set()
+    for head, kind in HEADS.items():
+        for first in ((True, False) if kind == 'key' else (False,)):
+            def oracle(t, head=head):
+                m1 = re.match(r'^isinstance\(next\(%s\), (.+)\)$' % re.escape(G), t)
+                if m1:
+                    return any(n in mro[head] for n in re.findall(r'[A-Za-z_]\w*', m1.group(1)))
+                m2 = re.match(r'^isinstance\(\((self|PGPKey\(\)|PGPUID\(\)) \| .*\), (.+)\)$', t)
+                if m2:
+                    return any(n in own['PGPUID' if m2.group(1) == 'PGPUID()' else 'PGPKey'] for n in re.findall(r'[A-Za-z_]\w*', m2.group(2)))
+                return None
+            _, rs = observe(prog, f, oracle=oracle, bind={'self._key': Const(None) if first else Sym('self._key', nonnull=True)})
+            H = '(%s | next(%s))' % ('PGPUID()' if kind == 'uid' else 'self' if first else 'PGPKey()', G)
+            scen = '%s%s' % (head, ' (first key)' if first else '')
+            # signatures of the group
+            inner = [r for r in rs if r.coll == G]
+            att_ok = bool(inner)
+            detail = 'no loop over the group'
+            for r in inner:
+                attaching = [p for p in r.paths if _attach_events(p[2])]
+                others = [p for p in r.paths if not _attach_events(p[2])]
+                want_val = '(PGPSignature() | %s)' % r.var
+                one = all(len(_attach_events(p[2])) == 1 and _root(_attach_events(p[2])[0][0], H) == H and _attach_events(p[2])[0][1] == want_val and
+                          len(_effects(p[2])) <= 1 and p[0] in ('normal', 'continue') for p in attaching)
+                quiet = all(not _effects(p[2]) and p[0] in ('normal', 'continue') for p in others)
+                kept = ('and', [conj(r.conds), any_of(path_cond(p[1]) for p in attaching)])
+                detail = 'each %s in group%s: %s' % (r.var, ''.join(' if ' + c for c in r.conds),
+                                                      [([x[0] if x[1] else 'not ' + x[0] for x in p[1]], _attach_events(p[2])) for p in attaching])
+                att_ok = att_ok and bool(attaching) and one and quiet and same(kept, ('not', ('atom', 'isinstance(%s, Opaque)' % r.var)))
+            if (kind, first, 'att', att_ok, detail) not in seen:
+                seen.add((kind, first, 'att', att_ok, detail))
+                rep.check(att_ok, 'C14.3', 'PGPKey.parse', 'signature attachment (%s) %s' % (scen, detail[:300]),
+                          'every signature packet of a group (except unparseable ones) is attached to the group\'s head - none dropped, merged or de-duplicated',
+                          where=where, expected='for sig in group: if not isinstance(sig, Opaque): %s |= PGPSignature() | sig' % H, scenario=scen)
+            # filing
+            for r in [x for x in rs if x.node is gl[0].node]:
+                taking = [p for p in r.paths if takes_head(p[2])]
+                if not taking:
+                    raise AnalysisError('PGPKey.parse: no path takes the head packet of a group with next(group)')
+                for status, facts, events, st in taking:
+                    filed = [(e[1], e[2]) for e in events if e[0] == 'store' and e[1].startswith(KEYS + '[')]
+                    filed = [(pth, val.replace('(%s | (PGPSignature() | ' % H, '\0').split('\0')[0] if val.startswith('(%s | (PGPSignature() | ' % H) else val) for pth, val in filed]
+                    primary = atom_value(facts, '%s.is_primary' % H) if kind == 'key' else False
+                    if primary is True:
+                        want = [('%s[(%s.fingerprint.keyid, %s.is_public)]' % (KEYS, H, H), H)]
+                        rule = 'each primary key packet starts a new key in the result (the first one fills self)'
+                    elif primary is False:
+                        want = [(recent, '(%s | %s)' % (recent, H))]
+                        rule = 'subkeys and user ids belong to the primary key that precedes them'
+                    else:
+                        want = None
+                        rule = 'a key packet is filed as a new key when it is a primary key, else under the most recent primary'
+                    okp = want is not None and filed == want and status in ('normal', 'continue')
+                    key_ = (kind, first, primary, okp, tuple(filed))
+                    if key_ in seen:
+                        continue
+                    seen.add(key_)
+                    rep.check(okp, 'C14.3', 'PGPKey.parse', 'filing (%s, primary=%s): %s [%s]' % (scen, primary, filed, status), rule, where=where,
+                              expected=want, found=filed, scenario=scen)
+
+
+def grouper(rep, prog, f, keytext):
+    from sa.loader import FunctionInfo
+    where = f.where
+    call = None
+    m = re.match(r'^(\w+)\(\)$', keytext or '')
+    if m is not None:
+        for n in ast.walk(f.node):
+            if isinstance(n, ast.ClassDef) and n.name == m.group(1):
+                call = next((x for x in n.body if isinstance(x, ast.FunctionDef) and x.name == '__call__'), None)
+    if call is None:
+        raise AnalysisError('PGPKey.parse: grouping key %s is not an instance of a local class with __call__' % keytext)
+    fi = FunctionInfo(call, f.module, None, outer=f)
+    if len(fi.params) != 2:
+        raise AnalysisError('PGPKey.parse: grouping key __call__ takes %s' % fi.params)
+    me, P = fi.params
+    sig = prog.cls('pgpy.constants', 'PacketTag').enum_members().get('Signature')
+    cands = ['%s.header.tag == PacketTag.Signature' % P, '%s.header.tag == %r' % (P, sig)]
+    ok = True
+    n_head = n_sig = 0
+    found = []
+    for s in Interp(prog, Scenario(inline=noinline)).run(fi):
+        is_sig = None
+        for a in cands:
+            v = atom_value(s.facts, a)
+            if v is not None:
+                is_sig = v
+        if is_sig is None:
+            v = atom_value(s.facts, 'isinstance(%s, Signature)' % P)
+            is_sig = v
+        st = [(p, v) for p, v, l, _ in s.stores]
+        r = render(s.ret) if s.ret is not None else None
+        found.append(([x[0] if x[1] else 'not ' + x[0] for x in s.facts], st, r))
+        if s.raised is not None or is_sig is None or len(atoms(path_cond(s.facts))) != 1:
+            ok = False
+        elif is_sig:
+            n_sig += 1
+            ok = ok and not st and r is not None and re.match(r'^%s\.\w+$' % re.escape(me), r) is not None
+        else:
+            n_head += 1
+            ok = ok and len(st) == 1 and st[0][0].startswith(me + '.') and r == st[0][1] and 'id(%s)' % P in st[0][1]
+    state = {st[0][0] for _, st, _ in found if st} | {r for _, st, r in found if not st and r}
+    rep.check(ok and n_head >= 1 and n_sig >= 1 and len(state) == 1, 'C14.3', 'PGPKey.parse.PktGrouper', 'group key %s' % found,
+              'a new group starts at every packet that is not a signature, and only there '
               '(the key is unique per head packet and is kept for the signatures that follow)', where=where)
-    # ---- which groups are skipped
-    comp = [n for n in ast.walk(f.node) if isinstance(n, (ast.GeneratorExp, ast.ListComp)) and any(x is gb[0] for g in n.generators for x in ast.walk(g.iter))]
-    skipped = None
-    gvar = None
-    if len(comp) == 1:
-        g = comp[0].generators[0]
-        if isinstance(g.target, ast.Tuple) and len(g.target.elts) == 2:
-            kvar, gvar = ast.unparse(g.target.elts[0]), ast.unparse(g.target.elts[1])
-            conds = [ast.unparse(i).replace(' ', '') for i in g.ifs]
-            skipped = conds
-            okc = conds == ["not%s.endswith('Opaque')" % kvar]
-        else:
-            okc = False
-    else:
-        okc = False
-    rep.check(okc, 'C14.3', 'PGPKey.parse', 'skipped groups %s' % skipped, 'only groups headed by an unknown (opaque) packet are skipped', where=where,
-              expected="if not <key>.endswith('Opaque')", found=skipped)
-    # ---- every signature of the group is attached to the head object
-    loopvar = None
-    for n in ast.walk(f.node):
-        if isinstance(n, ast.For) and any(x is comp[0] for x in ast.walk(n.iter)) if comp else False:
-            loopvar = ast.unparse(n.target)
-    att = []
-    for n in ast.walk(f.node):
-        gens = []
-        if isinstance(n, (ast.ListComp, ast.GeneratorExp)):
-            gens = [(g, n.elt) for g in n.generators]
-        elif isinstance(n, ast.For):
-            gens = [(n, None)]
-        for g, elt in gens:
-            it = ast.unparse(g.iter)
-            if loopvar is not None and it == loopvar and 'PGPSignature' in ast.unparse(n):
-                att.append((n, g, elt))
-    ok = len(att) == 1
-    detail = None
-    if ok:
-        n, g, elt = att[0]
-        sv = ast.unparse(g.target)
-        conds = [ast.unparse(i).replace(' ', '') for i in getattr(g, 'ifs', [])]
-        detail = ast.unparse(n)[:140]
-        if elt is not None:
-            e = ast.unparse(elt).replace(' ', '')
-            m = re.match(r'^operator\.ior\((\w+),PGPSignature\(\)\|%s\)$' % re.escape(sv), e)
-            ok = m is not None and conds == ['notisinstance(%s,Opaque)' % sv]
-        else:
-            body = [ast.unparse(x).replace(' ', '') for x in n.body]
-            ok = len(body) == 1 and re.match(r'^(\w+)\|=PGPSignature\(\)\|%s$' % re.escape(sv), body[0]) is not None and not conds
-            if not ok and len(n.body) == 1 and isinstance(n.body[0], ast.If) and not n.body[0].orelse:
-                t = ast.unparse(n.body[0].test).replace(' ', '')
-                b = [ast.unparse(x).replace(' ', '') for x in n.body[0].body]
-                ok = t == 'notisinstance(%s,Opaque)' % sv and len(b) == 1 and re.match(r'^(\w+)\|=PGPSignature\(\)\|%s$' % re.escape(sv), b[0]) is not None
-    rep.check(ok, 'C14.3', 'PGPKey.parse', 'signature attachment %s' % (detail or 'not a single pass over the group'),
-              'every signature packet of a group (except unparseable ones) is attached to the group\'s head - none dropped, merged or de-duplicated',
-              where=where, expected='[operator.ior(pgpobj, PGPSignature() | sig) for sig in group if not isinstance(sig, Opaque)]')
-    # ---- filing
-    t = ast.unparse(f.node).replace(' ', '')
-    rep.check(re.search(r'=\(selfifself\._keyisNoneelsePGPKey\(\)\)\|\w+', t) is not None, 'C14.3', 'PGPKey.parse', 'key head',
-              'a key packet starts a key object (the first one fills self)', where=where)
-    rep.check(re.search(r'=PGPUID\(\)\|\w+', t) is not None, 'C14.3', 'PGPKey.parse', 'uid head', 'a user id / attribute packet starts an identity', where=where)
-    rep.check(re.search(r'keys\[\(?(\w+)\.fingerprint\.keyid,\1\.is_public\)?\]=\1', t) is not None, 'C14.3', 'PGPKey.parse', 'primary filed as a new key',
-              'each primary key packet starts a new key in the result', where=where)
-    n_recent = len(re.findall(r'keys\[next\(reversed\(keys\)\)\]\|=\w+', t))
-    rep.check(n_recent == 2, 'C14.3', 'PGPKey.parse', 'subkeys and identities go to the most recent primary (%d sites)' % n_recent,
-              'subkeys and user ids belong to the primary key that precedes them', where=where)
 
 
 def _copied_collections(fn):
